@@ -140,6 +140,98 @@ def cdc_bench(name, cmd_depth=4, wdata_depth=4, rdata_depth=4, fairness=3, aw=4,
     return b
 
 
+def getport_bench(name, user_dw=16, native_dw=8, fairness=3):
+    """real LiteDRAMCrossbar.get_port(clock_domain='user', data_width=...) = width converter (user domain) + CDC in front of the
+    crossbar's arbitration, against a controller-interface stub; commands only (no data phases): each accepted user command must
+    produce exactly `ratio` bank-side commands with consecutive addresses, in order, for any clock schedule"""
+    from litedram.core.crossbar import LiteDRAMCrossbar
+    from litedram.core.controller import ControllerSettings
+    from litedram.common import LiteDRAMInterface, GeomSettings
+    from vlib import cfg
+    cs = ControllerSettings(cmd_buffer_depth=4)
+    cs.phy = cfg.phy_settings(dfi_databits=native_dw, read_latency=1, write_latency=0)
+    cs.geom = GeomSettings(bankbits=1, rowbits=3, colbits=3)
+    cs.timing = cfg.timing_settings()
+    iface = LiteDRAMInterface(0, cs)
+
+    class Top(Module):
+        pass
+    top = Top()
+    top.submodules.xbar = xbar = LiteDRAMCrossbar(iface)
+    pu = xbar.get_port(clock_domain="user", data_width=user_dw)
+    ratio = user_dw // native_dw
+    tu = Signal(name_override="tick_user")
+    ts = Signal(name_override="tick_sys")
+    inputs = {"tick_user": tu, "tick_sys": ts, "u_cmd_valid": pu.cmd.valid, "u_cmd_addr": pu.cmd.addr}
+    user_in = {"u_cmd_valid": pu.cmd.valid, "u_cmd_addr": pu.cmd.addr}
+    sys_in = {}
+    banks = [getattr(iface, "bank%d" % i) for i in range(iface.nbanks)]
+    for i, b in enumerate(banks):
+        inputs["bank%d_ready" % i] = b.ready
+        sys_in["bank%d_ready" % i] = b.ready
+    top.comb += [pu.cmd.we.eq(0), pu.rdata.ready.eq(1), pu.wdata.valid.eq(0)]
+    assumes, bads, covers = {}, {}, {}
+    bad = _bad_adder(top, bads)
+
+    def asm(n, e):
+        s_ = Signal(name_override="asm_" + n)
+        top.comb += s_.eq(e)
+        assumes[n] = s_
+    for dom, tick, sigs in (("user", tu, user_in), ("sys", ts, sys_in)):
+        ptick = Signal(reset=1)
+        top.sync.mon += ptick.eq(tick)
+        same = []
+        for n, sg in sigs.items():
+            p_ = Signal(len(sg))
+            top.sync.mon += p_.eq(sg)
+            same.append(p_ == sg)
+        asm("%s_inputs_change_only_at_%s_edges" % (dom, dom), ptick | monitors.all_(same))
+    pv = Signal()
+    pa = Signal(len(pu.cmd.addr))
+    top.sync.mon += If(tu, pv.eq(pu.cmd.valid & ~pu.cmd.ready), pa.eq(pu.cmd.addr))
+    asm("user_cmd_held_until_accepted", ~pv | (pu.cmd.valid & (pa == pu.cmd.addr)))
+    push = Signal()
+    top.comb += push.eq(pu.cmd.valid & pu.cmd.ready & tu)
+    # bank-side acceptances (at most one bank accepts per sys edge for a single master)
+    bacc = [b.valid & b.ready for b in banks]
+    pop = Signal()
+    top.comb += pop.eq(monitors.any_(bacc) & ts)
+    # full native address of the accepted bank command: rebuild from bank index and row/column address (colbits=3, align 0)
+    baddr = Signal(len(pu.cmd.addr) + 1 + 2)
+    for i, b in enumerate(banks):
+        top.comb += If(bacc[i], baddr.eq(Cat(b.addr[:3], Constant(i, 1), b.addr[3:])))
+    W = 7
+    level = Signal(W)
+    mark = Signal(name_override="mark_cmd")
+    inputs["mark_cmd"] = mark
+    pm = Signal()
+    pt = Signal(reset=1)
+    top.sync.mon += [pm.eq(mark), pt.eq(tu)]
+    asm("mark_changes_only_at_user_edges", pt | (pm == mark))
+    marked = Signal()
+    done = Signal(max=ratio + 1)
+    ahead = Signal(W)
+    mA = Signal(len(pu.cmd.addr))
+    mark_now = Signal()
+    top.comb += mark_now.eq(push & mark & ~marked)
+    mine = Signal()
+    top.comb += mine.eq(marked & (done != ratio) & pop & (ahead == 0))
+    top.sync.mon += [
+        level.eq(level + Mux(push, ratio, 0) - pop),
+        If(mark_now, marked.eq(1), ahead.eq(level - pop), mA.eq(pu.cmd.addr)),
+        If(marked & (done != ratio) & pop, If(ahead == 0, done.eq(done + 1)).Else(ahead.eq(ahead - 1))),
+    ]
+    bad("bank_side_command_without_user_command_invented_or_duplicated", pop & (level == 0))
+    bad("marked_user_command_not_split_into_consecutive_bank_commands_in_order", mine & (baddr != mA * ratio + done))
+    c = Signal()
+    top.comb += c.eq(mine & (done == ratio - 1) & (mA != 0))
+    covers["marked_wide_command_fully_issued_on_the_bank_side"] = c
+    b = bmc.Bench(name, top, inputs, assumes=assumes, bads=bads, covers=covers, schedule="free", fairness=fairness,
+                  clock_domains=("sys", "user", "mon"), tick_inputs={"user": tu, "sys": ts}, always_tick=("mon",),
+                  info=dict(user_dw=user_dw, native_dw=native_dw, fairness=fairness))
+    return b
+
+
 CONFIGS = {
     "cdc_d4_fair3": (dict(cmd_depth=4, wdata_depth=4, rdata_depth=4, fairness=3), 22, 36, "qt"),
     "unbounded_reads_cdc_d4_fair3": (dict(cmd_depth=4, wdata_depth=4, rdata_depth=4, fairness=3, bounded_reads=False), 18, 24, "qt"),
@@ -150,6 +242,8 @@ CONFIGS = {
     "cdc_d4_fair8": (dict(cmd_depth=4, wdata_depth=4, rdata_depth=4, fairness=8), 0, 44, "t"),
 }
 BENCHES = {n: partial(cdc_bench, n, **c[0]) for n, c in CONFIGS.items()}
+GP_CONFIGS = {"getport_user_domain_2to1": (dict(user_dw=16, native_dw=8), 20, 30, "qt")}
+BENCHES.update({n: partial(getport_bench, n, **c[0]) for n, c in GP_CONFIGS.items()})
 
 
 def run(ctx):
@@ -172,4 +266,11 @@ def run(ctx):
             ctx.add(n, kt, timeout=3000, min_K=kq or 20, chunk=4, diff_cycles=12, cover_required=not n.startswith("unbounded"),
                     bads=["read_data_offered_while_crossing_cannot_take_it_word_lost",
                           "crossing_refuses_read_data_although_fewer_than_rdata_depth_words_are_inside"] if n.startswith("unbounded") else None)
+    for n, (kw, kq, kt, tiers) in GP_CONFIGS.items():
+        if ctx.only and not ctx.only.search(n):
+            continue
+        if ctx.tier == "quick" and "q" in tiers:
+            ctx.add(n, kq, timeout=900, min_K=14, chunk=3, diff_cycles=10)
+        elif ctx.tier == "thorough":
+            ctx.add(n, kt, timeout=3000, min_K=16, chunk=3, diff_cycles=12)
     ctx.run()
